@@ -30,31 +30,39 @@ EXTENDS XmlText
 
 CONSTANTS Alphabet, MaxLen, Depths, Modes, V, AttrAll
 
-VARIABLES s, mode, depth
-vars == <<s, mode, depth>>
+VARIABLES s, mode, depth, obs
+vars == <<s, mode, depth, obs>>
 
-Init == s = <<>> /\ mode \in Modes /\ depth \in Depths
+NameLike(x) == ~Has(x, {"tab", "lf", "cr"})
+AttrOf(x) == IF AttrAll \/ V.attrEsc \/ NameLike(x) THEN x ELSE <<>>
+
+(* everything the invariants look at, computed once per state *)
+Obs(x, m, d) ==
+  LET a  == AttrOf(x)
+      w  == NestEnc(x, a, d, m, V)
+      r  == NestRead(w, d)
+      a2 == IF r.as = <<>> THEN <<>> ELSE r.as[1]
+      w2 == IF r.ok THEN NestEnc(r.s, a2, d, m, V) ELSE <<>>
+      r2 == IF r.ok THEN NestRead(w2, d) ELSE r
+      at == AttrRead(EncAttr(x, V))
+  IN [a |-> a, w |-> w, r |-> r, w2 |-> w2, r2 |-> r2, at |-> at]
+
+Init == /\ s = <<>> /\ mode \in Modes /\ depth \in Depths
+        /\ obs = Obs(<<>>, mode, depth)
 Next == /\ Len(s) < MaxLen
         /\ \E c \in Alphabet : s' = Append(s, c)
         /\ UNCHANGED <<mode, depth>>
+        /\ obs' = Obs(s', mode, depth)
 Spec == Init /\ [][Next]_vars
 
-NameLike(x) == ~Has(x, {"tab", "lf", "cr"})
-AttrIn == IF AttrAll \/ V.attrEsc \/ NameLike(s) THEN s ELSE <<>>
-
-Written == NestEnc(s, AttrIn, depth, mode, V)
-ReadBack == NestRead(Written, depth)
-
-RoundTrip == ReadBack.ok /\ ReadBack.s = s
-AttrRoundTrip == ReadBack.ok /\ \A k \in DOMAIN ReadBack.as : ReadBack.as[k] = AttrIn
-WriterTotal == ~Has(Written, {"ERR"})
-Stable == ReadBack.ok =>
-            LET as2 == IF ReadBack.as = <<>> THEN <<>> ELSE ReadBack.as[1]
-                w2 == NestEnc(ReadBack.s, as2, depth, mode, V)
-                r2 == NestRead(w2, depth) IN
-            r2.ok /\ r2.s = ReadBack.s /\ NestEnc(r2.s, as2, depth, mode, V) = w2
+RoundTrip == obs.r.ok /\ obs.r.s = s
+AttrRoundTrip == obs.r.ok /\ \A k \in DOMAIN obs.r.as : obs.r.as[k] = obs.a
+WriterTotal == ~Has(obs.w, {"ERR"})
+Stable == obs.r.ok =>
+            /\ obs.r2.ok /\ obs.r2.s = obs.r.s /\ obs.r2.as = obs.r.as
+            /\ NestEnc(obs.r2.s, IF obs.r2.as = <<>> THEN <<>> ELSE obs.r2.as[1],
+                       depth, mode, V) = obs.w2
 
 (* depth 0 attribute law on its own (the NAME="..." of a top-level element) *)
-Attr0 == (AttrAll \/ V.attrEsc \/ NameLike(s)) =>
-            LET r == AttrRead(EncAttr(s, V)) IN r.ok /\ r.s = s
+Attr0 == (AttrAll \/ V.attrEsc \/ NameLike(s)) => (obs.at.ok /\ obs.at.s = s)
 =============================================================================
